@@ -1,6 +1,8 @@
 package vsched_test
 
 import (
+	"reflect"
+	"runtime"
 	"testing"
 
 	"verifkit/vsched"
@@ -105,5 +107,30 @@ func TestDeterministicReplay(t *testing.T) {
 	e2 := vsched.Run([]int{0, 1, 1}, vsched.Options{}, body)
 	if len(e1.Choices()) != len(e2.Choices()) {
 		t.Fatalf("replay differs: %v vs %v", e1.Choices(), e2.Choices())
+	}
+}
+
+// Scheduler state is keyed by channel address; a channel that became garbage inside an execution
+// must not hand its address (and its "closed" mark) to a channel made later in the same execution.
+func TestNoAddressReuseWithinExecution(t *testing.T) {
+	reused := 0
+	vsched.Run(nil, vsched.Options{}, func() {
+		old := map[uintptr]bool{}
+		for i := 0; i < 2000; i++ {
+			ch := make(chan int, 1)
+			vsched.Close(ch)
+			old[reflect.ValueOf(ch).Pointer()] = true
+		}
+		runtime.GC()
+		runtime.GC()
+		for i := 0; i < 4000; i++ {
+			ch := make(chan int, 1)
+			if old[reflect.ValueOf(ch).Pointer()] {
+				reused++
+			}
+		}
+	})
+	if reused > 0 {
+		t.Fatalf("%d fresh channels got the address of a channel closed earlier in the same execution", reused)
 	}
 }
